@@ -559,42 +559,62 @@ func seqOf(cells []cell) []string {
 func orTerms(v ssa.Value, bufMatch func(ssa.Value) bool) (map[int]int, bool) {
 	out := map[int]int{}
 	var rec func(v ssa.Value) bool
+	// multi: a (possibly converted) binary.{Little,Big}Endian.UintNN(buf[base:]) read, shifted left by sh bits
+	multi := func(v ssa.Value, sh int) bool {
+		for {
+			cv, ok := v.(*ssa.Convert)
+			if !ok {
+				break
+			}
+			v = cv.X
+		}
+		x, ok := v.(*ssa.Call)
+		if !ok {
+			return false
+		}
+		n := calleeName(&x.Call)
+		big := strings.HasPrefix(n, "(binary.bigEndian).Uint")
+		if !(strings.HasPrefix(n, "(binary.littleEndian).Uint") || big) || len(x.Call.Args) != 2 {
+			return false
+		}
+		w := map[string]int{"16": 2, "32": 4, "64": 8}[n[len(n)-2:]]
+		base := 0
+		arg := x.Call.Args[1]
+		if sl, ok := arg.(*ssa.Slice); ok {
+			if sl.Low != nil {
+				k, ok := constInt(sl.Low)
+				if !ok {
+					return false
+				}
+				base = int(k)
+			}
+			arg = sl.X
+		}
+		if w == 0 || !bufMatch(arg) {
+			return false
+		}
+		for i := 0; i < w; i++ {
+			if _, dup := out[base+i]; dup {
+				return false
+			}
+			if big {
+				out[base+i] = sh + 8*(w-1-i)
+			} else {
+				out[base+i] = sh + 8*i
+			}
+		}
+		return true
+	}
 	rec = func(v ssa.Value) bool {
 		if cv, ok := v.(*ssa.Convert); ok {
 			switch cv.X.(type) {
-			case *ssa.BinOp, *ssa.Call:
+			case *ssa.BinOp, *ssa.Call, *ssa.Convert:
 				return rec(cv.X)
 			}
 		}
 		switch x := v.(type) {
 		case *ssa.Call:
-			n := calleeName(&x.Call)
-			if strings.HasPrefix(n, "(binary.littleEndian).Uint") && len(x.Call.Args) == 2 {
-				w := map[string]int{"16": 2, "32": 4, "64": 8}[n[len(n)-2:]]
-				base := 0
-				arg := x.Call.Args[1]
-				if sl, ok := arg.(*ssa.Slice); ok {
-					if sl.Low != nil {
-						k, ok := constInt(sl.Low)
-						if !ok {
-							return false
-						}
-						base = int(k)
-					}
-					arg = sl.X
-				}
-				if w == 0 || !bufMatch(arg) {
-					return false
-				}
-				for i := 0; i < w; i++ {
-					if _, dup := out[base+i]; dup {
-						return false
-					}
-					out[base+i] = 8 * i
-				}
-				return true
-			}
-			return false
+			return multi(x, 0)
 		case *ssa.BinOp:
 			if x.Op == token.OR || x.Op == token.ADD {
 				return rec(x.X) && rec(x.Y)
@@ -603,6 +623,10 @@ func orTerms(v ssa.Value, bufMatch func(ssa.Value) bool) (map[int]int, bool) {
 				s, ok := constInt(x.Y)
 				if !ok {
 					return false
+				}
+				// shifted multi-byte read
+				if intWidth(x.X.Type())*8 > int(s) && multi(x.X, int(s)) {
+					return true
 				}
 				i, ok := byteIndex(x.X, bufMatch)
 				if !ok {
